@@ -11,6 +11,7 @@ removal and simplification) never change which strings match.
 import ZoektModel.C27.Lemmas
 import ZoektModel.C27.Printer
 import ZoektModel.C27.EndsSound
+import ZoektModel.C27.EndsComplete
 import ZoektModel.C27.Spec
 namespace ZoektModel.C27
 open ZoektModel.Regex
@@ -173,6 +174,24 @@ theorem matchSpan_sound (env : Env) (s : Array Nat) (r : Re) (i j : Nat) (h : ma
     Matches env s r i j := by
   unfold matchSpan at h
   exact ends_sound r i j (by simpa using h)
+
+/-- **the executable matcher decides the match relation**: `ends` lists exactly the end positions of matches. -/
+theorem ends_iff (env : Env) (s : Array Nat) (r : Re) (i j : Nat) : j ∈ ends env s r i ↔ Matches env s r i j :=
+  ⟨ends_sound r i j, ends_complete⟩
+
+/-- hence the "nothing was skipped" clause of `validFindAll` means what it says: where it demands `ends` to be
+    empty, the tree has no match starting at that position. -/
+theorem ends_empty_iff (env : Env) (s : Array Nat) (r : Re) (k : Nat) :
+    (ends env s r k).isEmpty = true ↔ ∀ j, ¬ Matches env s r k j := by
+  rw [List.isEmpty_iff]
+  constructor
+  · intro h j hm
+    have := (ends_iff env s r k j).mpr hm
+    rw [h] at this; simp at this
+  · intro h
+    cases he : ends env s r k with
+    | nil => rfl
+    | cons a t => exact absurd ((ends_iff env s r k a).mp (by rw [he]; simp)) (h a)
 
 /-- every span of a result list accepted by `validFindAll` is a match of the tree -/
 theorem validFindAll_spans_match (env : Env) (s : Array Nat) (r : Re) :
